@@ -223,7 +223,10 @@ def nontrivial(prop, lines, impl):
 
 def property_fails(prop, lines, impl, model):
     impl, model = normalize(lines, impl, model)
-    keep = ("append", "read", "save", "load", "use", "replay") if prop == "C10" else ("replay",)
+    keep = {"C10": ("append", "read", "save", "load", "use", "replay", "drop", "raceappend"),
+            "C11": ("replay", "busreplay", "nestedreplay"),
+            "C09": ("pub", "replaypub", "read"), "C03": ("pub", "replaypub", "read"),
+            "C13": ("pub", "pubflaky", "read")}.get(prop, ("replay",))
     a = [l for l in (impl or ["<none>"]) if l.startswith("!") or l.split(" ", 1)[0] in keep]
     b = [l for l in (model or ["<none>"]) if l.startswith("!") or l.split(" ", 1)[0] in keep]
     if a == b:
